@@ -78,6 +78,11 @@ class CoreInterp(AsmInterp):
             return v
         return super().cast(v, ty, node)
 
+    def match_path(self, name, val, node):
+        if name.startswith("Reg::") and name[5:] in REG_ORDER and isinstance(val, RegC):
+            return val.n == REG_ORDER.index(name[5:])
+        return super().match_path(name, val, node)
+
     def equal(self, a, b, node):
         if isinstance(a, RegC) and isinstance(b, RegC):
             return a.n == b.n
